@@ -19,6 +19,7 @@
      over the -f file filters followed by the --eac filters; Filter::matches (C11) is represented by the
      verdict vector [c_fv] each message carries (one boolean per filter of the vector)
    - output thread t4: lifecycle-id set, index window on msg.index, style / -o            -> [t4_loop]
+   - the -o path: File::create (truncating) + one to_write per selected message           -> [path_after]
    Outside: clap, glob patterns, archives, the file system, DltMessageIterator (C01: a file is the list of the
    messages it parses to), to_write (C02), the text rendering of a line, plugins.
    No proofs in this file. *)
@@ -201,6 +202,31 @@ Definition t4 (o : opts) (merged : list cmsg) (l : list cmsg) : outcome :=
   let s := t4_loop o l (mkt [] [] 0) in
   mkout (rev (t_screen s)) (if o_file o then Some (rev (t_file s)) else None)
         (N.of_nat (length merged)) (t_output s) (lc_table merged).
+
+(* ------------------------------------------------------------------ the -o path (file-system contract) *)
+(* The output thread opens the path with `std::fs::File::create(s)`: write-only, created if absent, TRUNCATED to
+   length 0 if it exists; every selected message is appended with to_write through a BufWriter that is flushed at
+   the end.  So [r_file r = Some l] means: after the run the WHOLE content of the path is the concatenation of
+   to_write of l -- whatever the path held before (nothing, an empty file, junk, another DLT file, the output of an
+   earlier run).  Without -o no path is touched; when no input file can be opened convert returns before the
+   output thread exists and the path keeps its state.
+   [prior]: the bytes at the path before the run (None: the path does not exist). *)
+Section OutPath.
+  Context {byte : Type}.
+  Variable to_write : cmsg -> list byte.      (* DltMessage::to_write (C02) *)
+  (* File::create: the content the writer starts from *)
+  Definition file_create (prior : option (list byte)) : list byte := [].
+  (* content of the path after a run with outcome [res] *)
+  Definition path_after (prior : option (list byte)) (res : option outcome) : option (list byte) :=
+    match res with
+    | Some r =>
+        match r_file r with
+        | Some l => Some (file_create prior ++ concat (map to_write l))
+        | None => prior
+        end
+    | None => prior
+    end.
+End OutPath.
 
 (* ------------------------------------------------------------------ the whole command *)
 Section Convert.
